@@ -332,6 +332,8 @@ pub fn judge(scn: &Scn, out: &Outcome) -> Vec<Finding> {
                     Some(OpK::SinkSend) => {
                         if all_recv_gone {
                             "C13"
+                        } else if matches!(scn.hang_prop, "C11" | "C10" | "C12") {
+                            scn.hang_prop
                         } else {
                             "C14"
                         }
@@ -560,7 +562,9 @@ pub fn judge(scn: &Scn, out: &Outcome) -> Vec<Finding> {
     }
 
     // ------------------------------------------------------------------ C03
-    for x in &acc_events {
+    // (needs complete histories: an abandoned execution has begun calls that
+    // were never logged)
+    for x in acc_events.iter().filter(|_| complete) {
         let t = x.end;
         for s in v.streams() {
             if v.dynamic.contains(&s) {
@@ -675,7 +679,7 @@ pub fn judge(scn: &Scn, out: &Outcome) -> Vec<Finding> {
 
     // ------------------------------------------------------------------ C07
     for e in hist {
-        if !(is_recv(e.k) && e.res == Res::End) {
+        if !(is_recv(e.k) && e.res == Res::End) || !complete {
             continue;
         }
         let s = e.stream;
@@ -819,7 +823,7 @@ pub fn judge(scn: &Scn, out: &Outcome) -> Vec<Finding> {
     }
 
     // ------------------------------------------------------------------ C11
-    {
+    if complete {
         // unsubscribe truth table
         let mut by_stream: BTreeMap<u8, Vec<&Ev>> = BTreeMap::new();
         for e in hist {
@@ -906,7 +910,7 @@ pub fn judge(scn: &Scn, out: &Outcome) -> Vec<Finding> {
     }
 
     // ------------------------------------------------------------------ C13
-    {
+    if complete {
         let mut gone_at: Option<u64> = Some(0);
         for &r in &v.recv_slots {
             let rem = hist
